@@ -43,7 +43,7 @@ JudgePop(e) ==
 
 (* ---------------- component finder ---------------- *)
 UFAfter(e) ==
-    CASE e.ev = "UFNew" -> { {v} : v \in Range(e.values) }
+    CASE e.ev = "UFNew" -> { {v} : v \in Rng(e.values) }
       [] e.ev = "Merge" -> UFM!Merged(part, e.x, e.y)
       [] OTHER -> part
 
